@@ -39,17 +39,11 @@ Definition agrees (l : list res) (obs : list (list str * sdesc * option ent)) : 
                        | None => false
                        end) obs.
 
-(* region of the remaining finding, decidable on the input: procedure(n) where an abstract
-   interface n of an inner scope hides a procedure n of an outer scope (FORD takes the procedure).
-   The Spec is only asked about legal units (scopes_legal: no own/import clash, no ambiguous
+(* The Spec is only asked about legal units (scopes_legal: no own/import clash, no ambiguous
    import in one scope). *)
-Definition region_abs_over_proc (evs : list event) : bool := negb (procabs_consistent evs).
-(* second region: an own declaration of a submodule named like an entity visible in its host unit *)
-Definition region_sub_shadow (evs : list event) : bool := negb (sub_shadow_free evs).
-
 Definition case := (list event * list (list str * sdesc * option ent))%type.
 (* the implementation agrees with the Spec on every slot on which the model agrees with the Spec
-   (a difference where the model itself differs from the Spec is the recorded finding) *)
+   (on legal, well-formed units the model agrees with the Spec on every slot: C07_full) *)
 Definition agrees_x (lm ls : list res) (obs : list (list str * sdesc * option ent)) : bool :=
   Nat.eqb (length ls) (length obs)
   && forallb (fun o => match find_res ls (fst (fst o)) (snd (fst o)), find_res lm (fst (fst o)) (snd (fst o)) with
@@ -57,16 +51,15 @@ Definition agrees_x (lm ls : list res) (obs : list (list str * sdesc * option en
                                              || opt_eqb ent_eqb (r_ent rs) (snd o)
                        | _, _ => false
                        end) obs.
-(* bit 1: a difference from the Spec that the recorded finding does not explain;
-   region value: 1 abs-over-proc, 2 not a legal unit (Spec not asked), 4 not a well-formed event
-   list, 8 the implementation differs from the Spec somewhere, 16 submodule declaration vs host *)
+(* bit 1: the implementation differs from the Spec on a slot where the model agrees with the Spec;
+   region value: 2 not a legal unit (Spec not asked), 4 not a well-formed event list, 8 the
+   implementation differs from the Spec somewhere *)
 Definition judge (c : case) : nat :=
   let evs := fst c in
   let legal := scopes_legal evs in
   verdict (negb (agrees (correlate evs) (snd c))) (legal && negb (agrees_x (correlate evs) (spec evs) (snd c)))
-          ((if region_abs_over_proc evs then 1 else 0) + (if legal then 0 else 2)
-           + (if wf_events evs then 0 else 4) + (if legal && negb (agrees (spec evs) (snd c)) then 8 else 0)
-           + (if region_sub_shadow evs then 16 else 0)).
+          ((if legal then 0 else 2)
+           + (if wf_events evs then 0 else 4) + (if legal && negb (agrees (spec evs) (snd c)) then 8 else 0)).
 
 (* ancestor_module / parent_submodule: (names of the candidate units in project order, the name
    written in the SUBMODULE statement, the unit the implementation attached) *)
